@@ -39,7 +39,8 @@ REQUIRED = ["at_most_once_atomic", "at_most_one_success_atomic", "at_most_one_su
             "fact_vci_sources", "fact_vci_tables", "preauth_code_dead_after_any_attempt", "preauth_honoured_at_most_once_in_any_history",
             "preauth_honoured_only_if_live_and_own", "preauth_dead_code_issues_nothing", "handleLanding_refines_thread", "landing_page_at_most_once_all_schedules",
             # round 3: the remaining iam burn handlers as threads (Props/C05Ref.lean)
-            "validateNonce_refines_threads", "vp_response_at_most_once_all_schedules", "handleReqObj_refines_thread", "request_object_at_most_once_all_schedules"]
+            "validateNonce_refines_threads", "vp_response_at_most_once_all_schedules", "handleReqObj_refines_thread", "request_object_at_most_once_all_schedules",
+            "every_endpoint_refines_its_threads", "any_endpoints_at_most_once_all_schedules"]
 
 
 def oracle(op, line, facts):
